@@ -9,7 +9,7 @@
    NOT satisfy the text: the _refuted theorems below are kernel-computed counterexamples, each replayed on the real
    resolve_dependencies and on node by corpus/C31/known_findings.json. *)
 From Coq Require Import List NArith.
-From SF Require Import Base.Str JsDeps.Model JsDeps.Proofs JsDeps.Sound.
+From SF Require Import Base.Str JsDeps.Model JsDeps.Proofs JsDeps.Sound JsDeps.Funs.
 Import ListNotations.
 Local Open Scope string_scope. Local Open Scope list_scope.
 
@@ -98,6 +98,52 @@ Example C31_fragment_example :
                 snd s = ["k"; "b"; "h"; "z"; "ab"] /\ dp w = ["k"; "b"; "h"; "z"; "ab"].
 Proof. split; [vm_compute; reflexivity|]. eexists. eexists. eexists. repeat split; vm_compute; reflexivity. Qed.
 
+(* Function declarations and expressionLib (Model.v, section 5: in_fragmentF).  The library declarations are prepended to
+   the body exactly as DependencyResolver.eval does.  Fragment: function declarations at the top level of the library
+   and of the body (not nested, no function expressions), called through an identifier, any number of calls, recursion
+   allowed; no variable ever holds the inputs object itself: the object is used only as the base of inputs.f /
+   inputs["f"] (in the body and inside the functions), so parameters are never bound to it and functions never return
+   it; names declared in a function (parameters, vars) and top-level vars are not called inputs (no shadowing of
+   inputs); functions touch only their own parameters and vars.  For EVERY such library+body, EVERY inputs object and
+   EVERY fuel: the analysis does not fail and a terminating evaluation reads only fields of the dependency set.
+   Not a superset of C31_sound_partial: that one tracks aliases of inputs but has no functions; this one has functions
+   but no aliases.  Nested / shadowing functions, function expressions, aliasing combined with functions: exercised only. *)
+Theorem C31_sound_functions_partial : forall inp n lib body c s,
+  in_fragmentF lib body = true ->
+  run inp n lib body = Ok c s ->
+  exists w, deps_js lib body = WOk w /\ incl (snd s) (dp w).
+Proof. exact sound_functions. Qed.
+Theorem C31_total_functions_partial : forall lib body,
+  in_fragmentF lib body = true -> exists w, deps_js lib body = WOk w.
+Proof. exact total_functions. Qed.
+
+Definition ex_lib : stmt := SFun "g" ["p"] (SSeq (SVarI "t" (EAdd (EDot I "b") (EId "p"))) (SRet (EId "t"))).
+Definition ex_fbody : stmt :=
+  SSeq (SVarI "s" (ECall (EId "g") (ECons (EDot I "a") ENil)))
+       (SRet (EAdd (EId "s") (ECall (EId "g") (ECons (EIdx I (EStr true "k")) ENil)))).
+Example C31_functions_example :
+  in_fragmentF ex_lib ex_fbody = true /\
+  exists w c s, deps_js ex_lib ex_fbody = WOk w /\ run inp0 60 ex_lib ex_fbody = Ok c s /\
+                snd s = ["b"; "k"; "b"; "a"] /\ dp w = ["k"; "a"; "b"].
+Proof. split; [vm_compute; reflexivity|]. eexists. eexists. eexists. repeat split; vm_compute; reflexivity. Qed.
+
+(* Whole interpolated strings (Model.v, section 6): text, $(parameter reference) and ${body} / $(expr) parts mixed in one
+   string, with a common expressionLib.  If every part is in a proved fragment (parts_in_fragment: references as in
+   C31_paramref_sound or rooted at self/runtime; JS parts in in_fragmentF with the library, or in in_fragment when there
+   is no library), then for EVERY inputs object and fuel, a completely successful evaluation of the string reads only
+   fields of the dependency set of the whole string, and resolve_dependencies' model does not fail. *)
+Theorem C31_sound_interpolation_partial : forall inp n lib ps R,
+  parts_in_fragment lib ps = true ->
+  run_parts inp n lib ps [] = Some R ->
+  exists D, deps_parts lib ps = inr D /\ incl R D.
+Proof. exact parts_sound. Qed.
+Example C31_interpolation_example :
+  let ps := [PText "pre "; PRef "inputs" [SgSingle "h"; SgDot "length"]; PText "-"; PJs ex_fbody; PRef "runtime" [SgDot "cores"]] in
+  parts_in_fragment ex_lib ps = true /\
+  exists R D, run_parts inp0 60 ex_lib ps [] = Some R /\ deps_parts ex_lib ps = inr D /\ incl_b R D = true /\ R <> [].
+Proof. split; [vm_compute; reflexivity|]. eexists. eexists. split; [vm_compute; reflexivity|]. split; [vm_compute; reflexivity|].
+  split; [vm_compute; reflexivity|discriminate]. Qed.
+
 Print Assumptions C31_computed_refuted.
 Print Assumptions C31_nested_delete_refuted.
 Print Assumptions C31_alias_refuted.
@@ -108,3 +154,6 @@ Print Assumptions C31_ref_index_refuted.
 Print Assumptions C31_paramref_sound.
 Print Assumptions C31_sound_partial.
 Print Assumptions C31_total_partial.
+Print Assumptions C31_sound_functions_partial.
+Print Assumptions C31_total_functions_partial.
+Print Assumptions C31_sound_interpolation_partial.
